@@ -325,3 +325,39 @@ def run(ctx):
         ctx.ob('C17.4', f, 'char-boundary:' + s_.name, g,
                '%s on task output %s' % (s_.name, 'with the offset derived / tested in the same function' if g else
                                          'with an UNCHECKED byte offset: a multi-byte character straddling it panics the task body — no terminal status frame'), line=s_.line)
+
+    # ---------------------------------------------------------------- C17.6
+    ctx.rule('C17.6', 'what was read is stored: in every function of the task module that appends task output to its log (TaskLogWriter::append inside a read loop), each iteration of that loop that comes back to the loop head passed the append — the decision to emit a preview frame (empty preview, byte limits) must not decide whether the bytes are stored.')
+    n6 = 0
+    for g in P.find_fns(r'^ripd::tasks::'):
+        aps = g.calls(r'^ripd::tasks::logs::TaskLogWriter::append$')
+        for ap in aps:
+            h6 = g.innermost_loop(ap.bb)
+            if h6 is None:
+                continue
+            n6 += 1
+            ctx.touch(g)
+            body6 = g.loops()[h6]
+            inner_ap = [x.bb for x in aps if x.bb in body6]
+            # start where the bytes of this iteration exist: the definition of the chunk handed to the append
+            # (`&buf[..n]`); iterations that read nothing (Interrupted -> continue) are not concerned
+            o6 = g.origin(ap.args[1], through_calls=(r'::deref$', r'::as_ref$'))
+            start6 = None
+            if o6[0] == 'call':
+                start6 = o6[1].bb
+            elif o6[0] == 'local':
+                ds6 = g.defs(o6[1])
+                if len(ds6) == 1:
+                    start6 = ds6[0][0]
+            if start6 is None or start6 not in body6:
+                succ_in = [s_ for s_ in g.succs(h6) if s_ in body6]
+            else:
+                succ_in = [s_ for s_ in g.succs(start6) if s_ in body6]
+            if start6 is not None and start6 in inner_ap:
+                succ_in = []      # the chunk is cut in the very block that hands it to the append
+            r6 = g.reach(succ_in, stop=inner_ap)
+            # the poll loop of an await inside the body is a loop of its own: only edges back to THIS header count
+            back = any(h6 in g.succs(b) for b in r6 if b in body6 and b not in inner_ap)
+            ctx.ob('C17.6', g, 'read-bytes-always-stored', not back, 'every iteration of the output loop %s TaskLogWriter::append' % ('passes' if not back else 'can come back to the loop head WITHOUT') +
+                   ('' if not back else ': bytes that were read (and may be previewed later) never reach the stored log'), line=ap.line)
+    ctx.floor('C17.6', 'log appends inside output loops', n6, 1)
